@@ -5,6 +5,7 @@ use std::path::{Path, PathBuf};
 use std::process::{Child, ChildStdin, ChildStdout, Command, Stdio};
 
 pub mod json;
+pub mod wl;
 
 /// xorshift64* — every random choice of a run derives from one state.
 #[derive(Clone)]
